@@ -36,10 +36,10 @@ def run_format_fn(ctx, eng, nfiles, check_flag=None):
         sess = eng_.read_ref(st, sref)
         cfg = eng_.lazy_field(st, sess, cfg_idx, 'Config') if isinstance(sess, Opaque) else sess.items[cfg_idx]
         inp = args[1]
-        st.trace.append(('format_and_emit_report', cfg, inp))
         newflags = Tup([eng_.fresh_bool('after_input.%s' % f) for f in flags], 'ReportedErrors')
         # flags only ever go false -> true while formatting an input (ReportedErrors::add ORs; proved separately)
         old = eng_.lazy_field(st, sess, err_idx, 'ReportedErrors') if isinstance(sess, Opaque) else sess.items[err_idx]
+        st.trace.append(('format_and_emit_report', cfg, inp, old, newflags))
         if isinstance(old, Tup):
             for o, n in zip(old.items, newflags.items):
                 st.assume(z3.Implies(o, n))
